@@ -270,8 +270,7 @@ class Cases:
     def int1(self, m, a, b, f, limit=LIMIT_1D_MS, trace=False, via=None, heavy=False, threads=None):
         j = {"id": self.jid("i"), "op": "int1", "method": m, "a": hx(a), "b": hx(b), "f": f.job(), "limit_ms": limit}
         try:
-            ex = f.exact(a, b)
-            j["I_abs"] = math.hypot(float(ex[0]), float(ex[1]))       # |integral|: classifies Gauss-Kronrod panics (harness ignores it)
+            j["L1_abs"] = l1_norm(f, a, b)       # int |f|: classifies Gauss-Kronrod panics (the harness ignores this field)
         except (OverflowError, ZeroDivisionError):
             pass
         if threads:
@@ -478,11 +477,11 @@ def build_cases(ctx, rng, deep=False, counts=None):
             g = Poly([(rng.uniform(-1, 1), 0.0) for _ in range(rng.randint(7, 10))])
             ig = Poly([(0.0, cr) for cr, _ in g.cs])
             i_g, i_ig = C.int1(m, a, b, g), C.int1(m, a, b, ig)
-            for jid, f in ((i_g, g), (i_ig, ig)):
-                C.checks.append({"kind": "accuracy1", "id": jid, "method": m, "a": a, "b": b, "f": f, "tol": t + TOL12 * f.scale(a, b),
-                                 "clause": "requested tolerance (absolute, as the code applies it)"})
+            # (no accuracy clause: a polynomial of degree > 3 is outside the exactness class and is not an oscillatory integrand; the
+            # error estimate of adaptive Simpson is heuristic there.)  Multiplying the integrand by i only swaps the components, every
+            # acceptance decision sees the same |delta|: I[i g] = i I[g] up to rounding.
             C.checks.append({"kind": "linear1", "ids": [i_g, i_g, i_ig], "method": m, "a": a, "b": b, "p": g, "g": g,
-                             "alpha": 1j, "beta": 0j, "tol": 2 * t + TOL12 * g.scale(a, b)})
+                             "alpha": 1j, "beta": 0j, "tol": TOL12 * g.scale(a, b)})
     # adaptive Simpson where max_depth binds: C12_adaptive_terminates bounds the number of integrand evaluations by 2^(depth+1)+1
     for depth in (1, 2, 3, 5):
         m = {"m": "asimp", "tol": hx(1e-12), "depth": depth}
@@ -646,14 +645,13 @@ def build_cases(ctx, rng, deep=False, counts=None):
     # a fixed complex cubic x quadratic (seed-independent): > 10^7 integrand evaluations on the pinned tree
     r5 = random.Random(5)
     gk2.append((Poly([(r5.uniform(-1, 1), r5.uniform(-1, 1)) for _ in range(4)]),
-                Poly([(r5.uniform(-1, 1), r5.uniform(-1, 1)) for _ in range(3)]), 6_000 if quick else 10_000))
+                Poly([(r5.uniform(-1, 1), r5.uniform(-1, 1)) for _ in range(3)]), 90_000))   # ended by the evaluation budget, not the clock
     for p, q, lim in gk2:
         a, b, c, d = 0.0, 1.0, 0.0, 1.0
         m = {"m": "gk", "tol": hx(1e-6), "depth": 1000}
         j = {"id": C.jid("t"), "op": "int2", "method": m, "a": hx(a), "b": hx(b), "c": hx(c), "d": hx(d),
              "f": {"t": "sep", "p": p.job(), "q": q.job()}, "limit_ms": lim, "heavy": True}
-        e2 = cmulq(p.exact(a, b), q.exact(c, d))
-        j["I_abs"] = math.hypot(float(e2[0]), float(e2[1]))
+        j["L1_abs"] = l1_norm(p, a, b) * l1_norm(q, c, d)
         C.add(j)
         ix, iy = C.int1(m, a, b, p), C.int1(m, c, d, q)
         C.checks.append({"kind": "separable2", "id": j["id"], "ix": ix, "iy": iy, "method": m, "rect": [a, b, c, d], "p": p, "q": q,
@@ -702,13 +700,28 @@ def panic_cause(msg):
     return "other"
 
 
-def gk_regime(m, i_abs):
-    """measured on the unchanged tree (quad-rs converges only when the ABSOLUTE error estimate drops below f64::EPSILON):
-    max_depth <= 30 always panics; max_depth >= 200 never panics for |I| < 0.25 (first panic observed at 0.51); max_depth >= 1000 never
-    panics for |I| < 8 (first panic at 14).  A panic inside the `small_integral` regime is NOT the known finding."""
+def l1_norm(f, a, b):
+    """int_a^b |f| (exact for amp exp(ikx), 64-point midpoint sum for polynomials)"""
+    if isinstance(f, Expi):
+        return abs(b - a) * abs(f.amp)
+    cs = [complex(*c) for c in f.cs]
+
+    def ev(x):
+        acc = 0j
+        for c in reversed(cs):
+            acc = acc * x + c
+        return acc
+    return abs(b - a) * sum(abs(ev(a + (b - a) * (j + 0.5) / 64)) for j in range(64)) / 64
+
+
+def gk_regime(m, l1):
+    """measured on the unchanged tree (quad-rs converges only when the ABSOLUTE error estimate, which scales with int |f|, drops
+    below f64::EPSILON): max_depth <= 30 always panics; with max_depth >= 200 no panic for int|f| <= 2.48 and every case above
+    2.70 panics; with max_depth >= 1000 no panic for int|f| <= 12.2, panics from 21.6.  The `small_integrand` regime keeps a factor 2
+    below those thresholds; a panic inside it is NOT the known finding."""
     depth = m.get("depth", 0)
-    if i_abs is not None and ((depth >= 1000 and i_abs < 8.0) or (depth >= 200 and i_abs < 0.25)):
-        return "small_integral"
+    if l1 is not None and ((depth >= 1000 and l1 < 6.0) or (depth >= 200 and l1 < 1.2)):
+        return "small_integrand"
     return "iteration_budget"
 
 
@@ -758,7 +771,7 @@ def outcome_problem(ctx, C, o, jid, m, dim, what_input):
             return False
         sg = dict(msig(m), kind="panic", dim=dim, cause=panic_cause(msg))
         if m["m"] == "gk":
-            sg.update(depth=m.get("depth"), tol=tol_class(m), regime=gk_regime(m, job.get("I_abs")))
+            sg.update(depth=m.get("depth"), tol=tol_class(m), regime=gk_regime(m, job.get("L1_abs")))
         ctx.violation("S5", f"{call_text(m, dim)} panics on {what_input}: {msg[:160]}", sg, {"job": job, "observation": o})
         return False
     if not finite(o):
@@ -1401,7 +1414,7 @@ def run(ctx):
     got_gk = ctx.cov["histogram"].get("gk:returned_a_value", 0)
     if got_gk < want_gk:
         ctx.violation("S5", f"Gauss-Kronrod returned a value on {got_gk} calls only; {want_gk} calls lie in the regime (max_depth >= 200, small integral) "
-                            f"where the unchanged tree never panics — the accuracy / reversal / linearity clauses are no longer exercised for this method",
+                            f"where the unchanged tree never panics (small int|f|) — the accuracy / reversal / linearity clauses are no longer exercised for this method",
                       {"kind": "gk_coverage", "method": "GaussKonrod"}, {"returned": got_gk, "expected_at_least": want_gk}, found_input=False)
     nbad = 0
     if cases_ok:
